@@ -299,6 +299,9 @@ class Translator:
                 # a method of a value computed here (`np.unique(x).cumsum()`): the receiver is translated, not quoted
                 recv = self.term(e.func.value, env)
                 return f"(Term.app {lean_str('.' + e.func.attr)} [{', '.join([recv] + args)}])"
+            if fu in ("list", "tuple", "set", "dict", "frozenset") and isinstance(e.func, ast.Name):
+                # the constructor CALL `list(x)` is not the display `[x]` (which is `Term.app "list" [x]`)
+                fu = fu + "()"
             return f"(Term.app {lean_str(fu)} [{', '.join(args)}])"
         if isinstance(e, ast.Subscript):
             v = self.term(e.value, env)
